@@ -230,4 +230,23 @@ CATALOGUE = [
          new="                elif not optional:\n                    pass"),
     dict(id="c08-silent-sorted-keys", props=["C08"], file=TR + "glencoe_writer.py", expect="silent",
          old="    for feature in sorted(features, key=lambda f: f.name):", new="    for feature in sorted(features, key=lambda f: (f.name, 0)):"),
+    # ---- C07 ------------------------------------------------------------------------------------
+    dict(id="c07-alt-tag-renamed", props=["C07"], file=TR + "featureide_writer.py", rule="C07-KIND",
+         old="        name = FeatureIDEReader.TAG_ALT", new="        name = 'alternative'"),
+    dict(id="c07-or-group-max1", props=["C07"], file=TR + "featureide_reader.py", rule="C07-KIND",
+         old="                        card_max=len(direct_children),", new="                        card_max=1,"),
+    dict(id="c07-mandatory-flag-dropped", props=["C07"], file=TR + "featureide_writer.py", rule="C07-KIND",
+         old="    if feature.is_mandatory():\n        atributes['mandatory'] = 'true'", new="    if False:\n        atributes['mandatory'] = 'true'"),
+    dict(id="c07-abstract-dropped", props=["C07"], file=TR + "featureide_writer.py", rule="C07-FIELDS",
+         old="    if feature.is_abstract:\n        atributes['abstract'] = 'true'", new="    if feature.is_abstract and feature.is_leaf():\n        atributes['abstract'] = 'true'"),
+    dict(id="c07-imp-operands-swapped", props=["C07"], file=TR + "featureide_reader.py", rule="C07-VOC",
+         old="            node = Node(ASTOperation.IMPLIES)\n            node.left = self._parse_rule(rule[0]).root\n            node.right = self._parse_rule(rule[1]).root",
+         new="            node = Node(ASTOperation.IMPLIES)\n            node.left = self._parse_rule(rule[1]).root\n            node.right = self._parse_rule(rule[0]).root"),
+    dict(id="c07-eq-one-direction", props=["C07"], file=TR + "featureide_reader.py", rule="C07-VOC",
+         old="            node.right.left = self._parse_rule(rule[1]).root\n            node.right.right = self._parse_rule(rule[0]).root",
+         new="            node.right.left = self._parse_rule(rule[0]).root\n            node.right.right = self._parse_rule(rule[1]).root"),
+    dict(id="c07-quote-names-again", props=["C07"], file=TR + "featureide_writer.py", rule="C07-ENC",
+         old="    atributes['name'] = feature.name", new="    atributes['name'] = feature.name.replace(' ', '_')"),
+    dict(id="c07-return-str", props=["C07"], file=TR + "featureide_writer.py", rule="C07-DUMP",
+         old="        return xml_str\n", new="        return xml_str.decode('utf8').strip()\n"),
 ]
